@@ -19,7 +19,7 @@ static cell_ptr make_cell_of_class(long cls, const std::vector<double>& pos, cel
     }
 }
 
-// iin: [ncells, class(ncells), ncoup, (c1,n1,c2,n2)*ncoup, nsteps, unused_slot_cell, unused_slot_node]
+// iin: [ncells, class(ncells), ncoup, (c1,n1,c2,n2)*ncoup, nsteps, unused_slot_cell, unused_slot_node, id offset]
 // din: [dt, damping, (density, volume)*ncells, per node (4/cell): pos(3) mom(3) force(3), then per extra step: force(3) per node]
 HARNESS(h_c03_step) {
     const long* I = io->iin; const double* D = io->din;
@@ -63,6 +63,9 @@ HARNESS(h_c03_step) {
 #endif
     const long nsteps = C[4 * ncoup];
     const long uc = C[4 * ncoup + 1], un = C[4 * ncoup + 2];
+    // persistent cell ids ahead of the list positions by this offset (the state after earlier cells have been removed or have divided)
+    const long idoff = C[4 * ncoup + 3];
+    for (long c = 0; c < nc; c++) cells[c]->set_id((unsigned) (c + idoff));
     if (uc >= 0) {   // mark one node slot as unused (free slot): it must not be integrated
         cells[uc]->node_lst_[un].set_is_used(false);
         cells[uc]->free_node_queue_.push_back((unsigned) un);
